@@ -80,6 +80,8 @@ func VerifC18() {
 	for i := 0; i < 2; i++ {
 		if rt.Bool("undecodable") {
 			outs[i] = verifOutcome{kind: 0}
+		} else if rt.Bool("converterPanics") {
+			outs[i] = verifOutcome{kind: 2} // e.g. a parser that dereferences a JSON null element
 		} else if useFlow {
 			outs[i] = verifOutcome{kind: 1, flw: verifMkFlow()}
 		} else {
@@ -93,6 +95,9 @@ func VerifC18() {
 		o := outs[src[0]]
 		if o.kind == 0 {
 			return nil, NewError(ConvertSourceError, "undecodable")
+		}
+		if o.kind == 2 {
+			panic("the converter panics on this payload")
 		}
 		// every delivery decodes to freshly allocated objects, as a JSON decoder does
 		if useFlow {
@@ -123,6 +128,8 @@ func VerifC18() {
 			if outs[id].kind == 0 {
 				rt.Assert(err != nil, "an undecodable payload returns an error")
 				rt.Reach("c18.undecodable")
+			} else if outs[id].kind == 2 {
+				rt.Reach("c18.converter-panic") // nothing escaped Handle (an escaping panic ends the path as a violation); the rules stay as they were
 			} else {
 				rt.Assert(err == nil, "a decodable payload is applied without error")
 				wantIso, wantFlow = map[string][]isolation.Rule{}, map[string][]flow.Rule{}
